@@ -155,22 +155,11 @@ inductive UOut (α : Type) where
   | res (r : Res)
   | solved (r : SolveResult α)
 
-/-- `get_normq(); get_normb()` on the problem data: the value returned is cached.  `DefaultInfo::update`
-calls both at the top of EVERY pass of `solve()` (`info.rs`), so after a `solve()` that returned both
-caches are `Some(_)` — the value a cache already held (possibly STALE after a rejected partial
-`update_q` / `update_b`), or the freshly computed norm.  (`Solver.solve` computes exactly these values
-in `topNumerics` but does not store them in its result: within one `solve()` the data never changes,
-so the trajectory is the same; the stored caches matter only for what comes AFTER the solve.) -/
-def fillNorms (d : ProblemData α) : MErr (ProblemData α) := do
-  let nq ← Info.getNormq d.normq d.q d.equilibration.dinv d.equilibration.c
-  let nb ← Info.getNormb d.normb d.b d.equilibration.einv
-  pure { d with normq := some nq, normb := some nb }
-
-/-- `solve()` as an operation of a history: `Solver.solve`, then the norm caches it filled -/
-def Solver.solveU (S : Solver α) (st : Settings α) : MErr (SolveResult α) := do
-  let r ← S.solve st
-  let d ← fillNorms r.S.st.data
-  pure { r with S := r.S.setData d }
+/-- `solve()` as an operation of a history.  Until round 8 the shared model `Solver.solve` left the
+norm caches of the problem data unchanged and this was `Solver.solve` followed by `fillNorms`; now
+`Solver.solve` itself returns the object with the caches `Info.update` filled
+(`ClarabelModel/Solver/Solve.lean`), and `solveU` is `solve` (`Solver.solveU_eq_solve`). -/
+def Solver.solveU (S : Solver α) (st : Settings α) : MErr (SolveResult α) := S.solve st
 
 /-- one operation of a history on the solver object (the settings are those the solver was
 constructed with) -/
